@@ -190,6 +190,26 @@ const (
 
 var reachName = [...]string{"direct", "_self", "import", "from", "alias", "multi"}
 
+// what the calling template does with the VALUE of the call expression
+const (
+	uPrint      = iota // {{ <call> }}
+	uSet2              // {% set r = <call> %}{{ r }}|{{ r }}
+	uSetLoop           // {% set r = <call> %}{% for i in [1, 2] %}{{ r }}{% endfor %}
+	uOuter             // {% import 'olib' as o %}{{ o.tw(<call>) }}: tw prints its parameter twice
+	uOuterLocal        // {{ tw(<call>) }}, tw being a macro of the calling template
+	uTwo               // {% set r = <call> %}{% set q = <call2> %}{{ r }}{{ q }}{{ r }}
+	nUses
+)
+
+var useName = [...]string{"print", "set2", "setloop", "outer", "outerlocal", "two"}
+
+// the macro that receives the value of a call and prints it twice. Its parameter carries the name
+// of an outer variable that argument kind pnames passes to f (tw(f(p1, …))): the argument is
+// evaluated where the call is written, not where its value is printed
+const twDef = "{% macro tw(p1) %}<{{ p1 }}{{ p1 }}>{% endmacro %}"
+
+var heldUses = []int{uSet2, uSetLoop, uOuter, uOuterLocal, uTwo}
+
 type kase struct {
 	Name    string // macro name: f, or a name that is also a built-in function
 	N       int    // parameters
@@ -202,11 +222,15 @@ type kase struct {
 	Site    int
 	Pad     int // 0 none, 1 defining template above 4096 bytes, 2 calling template above 4096 bytes
 	Hist    int // hEach or hSeq
+	Use     int // uPrint … uTwo
 }
 
 func (c *kase) key() string {
 	k := fmt.Sprintf("%s/%d|m%d|%s|%s|args%d|%s|%s|%s|p%d", c.Name, c.N, c.DefMask, defStyleName[c.DefSt], spacingName[c.Spacing],
 		c.Argc, argStyleName[c.ArgSt], bodyName[c.Body], siteName[c.Site], c.Pad)
+	if c.Use != uPrint {
+		k += "|u:" + useName[c.Use]
+	}
 	if c.Hist == hSeq {
 		k += "|seq"
 	}
@@ -300,6 +324,40 @@ func (c *kase) argList() string {
 	return strings.Join(as, ", ")
 }
 
+// the arguments of the second call of use form `two`: as many, other values
+func altArg(i int) (string, val) {
+	return fmt.Sprintf("'z%d'", i), val{s: fmt.Sprintf("z%d", i)}
+}
+
+func (c *kase) altArgList() string {
+	var as []string
+	for i := 0; i < c.Argc; i++ {
+		a, _ := altArg(i)
+		as = append(as, a)
+	}
+	return strings.Join(as, ", ")
+}
+
+// useSrc is what stands at the call site: the call printed, or its value held and used several times
+func (c *kase) useSrc(reach int, call, call2 string) string {
+	switch c.Use {
+	case uSet2:
+		return "{% set r = " + call + " %}{{ r }}|{{ r }}"
+	case uSetLoop:
+		return "{% set r = " + call + " %}{% for i in [1, 2] %}{{ r }}{% endfor %}"
+	case uOuter:
+		return "{% import 'olib' as o %}{{ o.tw(" + call + ") }}"
+	case uOuterLocal:
+		if reach == rSelf {
+			return "{{ _self.tw(" + call + ") }}"
+		}
+		return "{{ tw(" + call + ") }}"
+	case uTwo:
+		return "{% set r = " + call + " %}{% set q = " + call2 + " %}{{ r }}{{ q }}{{ r }}"
+	}
+	return "{{ " + call + " }}"
+}
+
 var padding = "{#" + strings.Repeat("padding-", 520) + "#}"
 
 const after = "|{{ p0 }}|{{ zz }}|"
@@ -341,6 +399,24 @@ func (c *kase) program(reach int, sfx string) (tpls map[string]string, mainName 
 		}
 	}
 	calleeArgs := callee[len(target):]
+	calleeArgs2 := calleeArgs // the second call of use form `two`: the same macro, other arguments
+	if target == c.Name {
+		calleeArgs2 = "(" + c.altArgList() + ")"
+	}
+	topDefs := "" // macro definitions at top level of the template in which the call stands
+	switch c.Use {
+	case uPrint:
+	case uOuterLocal:
+		if c.Site == sChildBlock {
+			return nil, "", false // a child template's macro definitions stand outside its blocks
+		}
+		topDefs = twDef
+		fallthrough
+	default:
+		if c.Argc == 0 {
+			return nil, "", false // held values are enumerated for calls with at least one argument
+		}
+	}
 
 	// names: for body relinc the defining template lives in d/, the importing templates at the root
 	dir := ""
@@ -354,25 +430,26 @@ func (c *kase) program(reach int, sfx string) (tpls map[string]string, mainName 
 	}
 
 	// how the calling template gets at the macro, and the call expression
-	var reachStmt, call string
+	var reachStmt, fn string
 	switch reach {
 	case rDirect:
-		call = target + calleeArgs
+		fn = target
 	case rSelf:
-		call = "_self." + target + calleeArgs
+		fn = "_self." + target
 	case rImport:
 		reachStmt = "{% import '" + libName + "' as m %}"
-		call = "m." + target + calleeArgs
+		fn = "m." + target
 	case rFrom:
 		reachStmt = "{% from '" + libName + "' import " + target + " %}"
-		call = target + calleeArgs
+		fn = target
 	case rAlias:
 		reachStmt = "{% from \"" + libName + "\" import " + target + " as h %}"
-		call = "h" + calleeArgs
+		fn = "h"
 	case rMulti:
 		reachStmt = "{% from '" + libName + "' import g as g2, " + target + " as h %}"
-		call = "h" + calleeArgs
+		fn = "h"
 	}
+	call, call2 := fn+calleeArgs, fn+calleeArgs2
 	if builtinName(c.Name) && target == c.Name && (reach == rDirect || reach == rFrom) {
 		return nil, "", false // a bare call of that name could mean the built-in function
 	}
@@ -383,9 +460,12 @@ func (c *kase) program(reach int, sfx string) (tpls map[string]string, mainName 
 	if local {
 		reachStmt = defs
 	}
-	use := "{{ " + call + " }}"
+	use := c.useSrc(reach, call, call2)
 
 	tpls = map[string]string{}
+	if c.Use == uOuter {
+		tpls["olib"] = twDef
+	}
 	main := ""
 	switch c.Site {
 	case sTop, sLibDirect, sLibSelf:
@@ -402,10 +482,10 @@ func (c *kase) program(reach int, sfx string) (tpls map[string]string, mainName 
 		tpls["base"] = "<{% block k %}K0{% endblock %}>" + after
 		main = "{% extends 'base' %}{% block k %}" + reachStmt + use + "{% endblock %}"
 	case sInclude:
-		tpls[incName] = reachStmt + use
+		tpls[incName] = topDefs + reachStmt + use
 		main = "{% include '" + incName + "' %}"
 	case sLoopInclude:
-		tpls[incName] = reachStmt + use
+		tpls[incName] = topDefs + reachStmt + use
 		main = "{% for i in xs %}{% include '" + incName + "' %};{% endfor %}"
 	case sInMacro:
 		if local {
@@ -413,6 +493,9 @@ func (c *kase) program(reach int, sfx string) (tpls map[string]string, mainName 
 		} else {
 			main = "{% macro v() %}" + reachStmt + "(" + use + "){% endmacro %}{{ v() }}"
 		}
+	}
+	if c.Site != sInclude && c.Site != sLoopInclude {
+		main = topDefs + main
 	}
 	if c.Site != sChildBlock {
 		main += after
@@ -446,11 +529,17 @@ func builtinName(n string) bool { return builtins[n] }
 // ---------------------------------------------------------------------------------------------
 // reference model (C12 statement; DESIGN.md Appendix A "Macros")
 
-func (c *kase) bind() (vals []val, pattern string) {
+func (c *kase) bind() (vals []val, pattern string) { return c.bindWith(false) }
+
+// bindWith: alt selects the arguments of the second call of use form `two`
+func (c *kase) bindWith(alt bool) (vals []val, pattern string) {
 	vals = make([]val, c.N)
 	var pat []string
 	for i := 0; i < c.N; i++ {
 		switch {
+		case i < c.Argc && alt:
+			_, vals[i] = altArg(i)
+			pat = append(pat, "A")
 		case i < c.Argc:
 			_, vals[i] = argExpr(c.ArgSt, i)
 			pat = append(pat, "A")
@@ -469,8 +558,10 @@ func (c *kase) bind() (vals []val, pattern string) {
 	return
 }
 
-func (c *kase) callOutput() string {
-	vals, _ := c.bind()
+func (c *kase) callOutput() string { return c.callOutputWith(false) }
+
+func (c *kase) callOutputWith(alt bool) string {
+	vals, _ := c.bindWith(alt)
 	first := val{s: "k0"}
 	if c.N > 0 {
 		first = vals[0]
@@ -508,6 +599,19 @@ func (c *kase) callOutput() string {
 
 func (c *kase) expected() string {
 	out := c.callOutput()
+	// a held value is the text the call renders, every time it is used
+	switch c.Use {
+	case uSet2:
+		out = out + "|" + out
+	case uSetLoop:
+		out = out + out
+	case uOuter, uOuterLocal:
+		out = "<" + out + out + ">"
+	case uTwo:
+		// through w (sites libw, libwself) both calls are w(), which calls f with the first arguments
+		out2 := c.callOutputWith(c.Site != sLibDirect && c.Site != sLibSelf)
+		out = out + out2 + out
+	}
 	switch c.Site {
 	case sLoop, sLoopImport, sLoopInclude:
 		out = out + ";" + out + ";"
@@ -646,6 +750,9 @@ func check(c kase) *vlib.Outcome {
 	want := c.expected()
 	_, pattern := c.bind()
 	class := fmt.Sprintf("%s|%s|%s", pattern, bodyName[c.Body], siteName[c.Site])
+	if c.Use != uPrint {
+		class += "|" + useName[c.Use]
+	}
 	if c.Hist != hEach {
 		class += "|" + histName[c.Hist]
 	}
@@ -738,6 +845,7 @@ type family struct {
 	sites, pads     []int
 	minArgc         int
 	hist            int
+	uses            []int // nil: the call is printed
 }
 
 func ints(n int) []int {
@@ -757,6 +865,9 @@ func families(thorough bool) []family {
 			// all ways of reaching the macro on one engine, rendered one after the other
 			{name: "seq", names: f, maxN: 3, defSt: []int{0, 1}, spacings: []int{0}, argSt: ints(nArgStyles), bodies: ints(nBodies), sites: ints(nSites), pads: []int{0, 1, 2}, hist: hSeq},
 			{name: "seq-builtin-name", names: []string{"max"}, maxN: 2, defSt: []int{0}, spacings: []int{0}, argSt: []int{asInt}, bodies: ints(nBodies), sites: ints(nSites), pads: []int{0}, minArgc: 1, hist: hSeq},
+			// the value of the call held and used several times (≥ 1 argument)
+			{name: "held", names: f, maxN: 3, defSt: []int{0, 1}, spacings: []int{0}, argSt: ints(nArgStyles), bodies: ints(nBodies), sites: ints(nSites), pads: []int{0, 1, 2}, minArgc: 1, uses: heldUses},
+			{name: "held-seq", names: f, maxN: 3, defSt: []int{0}, spacings: []int{0}, argSt: []int{asStr, asVar, asPar}, bodies: ints(nBodies), sites: ints(nSites), pads: []int{0, 2}, minArgc: 1, hist: hSeq, uses: heldUses},
 		}
 	}
 	return []family{
@@ -770,10 +881,19 @@ func families(thorough bool) []family {
 		// all ways of reaching the macro on one engine, rendered one after the other: the core product,
 		// with the library on either side of the tokenizer switch
 		{name: "seq", names: f, maxN: 3, defSt: []int{0}, spacings: []int{0}, argSt: []int{asStr, asPar}, bodies: ints(nBodies), sites: ints(nSites), pads: []int{0, 1}, hist: hSeq},
+		// the value of the call held and used several times (≥ 1 argument): the core product × 5 use
+		// forms, with the calling template on either side of the tokenizer switch
+		{name: "held", names: f, maxN: 3, defSt: []int{0}, spacings: []int{0}, argSt: []int{asStr, asPar}, bodies: ints(nBodies), sites: ints(nSites), pads: []int{0, 2}, minArgc: 1, uses: heldUses},
+		// … and with all ways of reaching the macro on one engine
+		{name: "held-seq", names: f, maxN: 3, defSt: []int{0}, spacings: []int{0}, argSt: []int{asStr}, bodies: []int{bPrint, bSelfSibling}, sites: ints(nSites), pads: []int{0}, minArgc: 1, hist: hSeq, uses: heldUses},
 	}
 }
 
 func (f *family) each(emit func(kase)) {
+	uses := f.uses
+	if uses == nil {
+		uses = []int{uPrint}
+	}
 	for n := 0; n <= f.maxN; n++ {
 		for mask := 0; mask < 1<<n; mask++ {
 			for argc := f.minArgc; argc <= n+1; argc++ {
@@ -790,7 +910,9 @@ func (f *family) each(emit func(kase)) {
 								for _, b := range f.bodies {
 									for _, s := range f.sites {
 										for _, p := range f.pads {
-											emit(kase{Name: nm, N: n, DefMask: mask, DefSt: ds, Spacing: sp, Argc: argc, ArgSt: as, Body: b, Site: s, Pad: p, Hist: f.hist})
+											for _, u := range uses {
+												emit(kase{Name: nm, N: n, DefMask: mask, DefSt: ds, Spacing: sp, Argc: argc, ArgSt: as, Body: b, Site: s, Pad: p, Hist: f.hist, Use: u})
+											}
 										}
 									}
 								}
